@@ -174,7 +174,7 @@ func runC12(c *core.Ctx, o Options) {
 					}
 					return false
 				}
-				ob := c.Ob("a", fn.Name(), "template fields exist in the data type", call.Pos())
+				ob := c.Ob("a", an.NameOf(fn), "template fields exist in the data type", call.Pos())
 				if !collect(call.Call.Args[1]) {
 					ob.Unknown("the template text is not a package-level template variable: %s", an.Render(call.Call.Args[1]))
 					return
@@ -406,13 +406,13 @@ func runC12(c *core.Ctx, o Options) {
 			if _, isMap := r.X.Type().Underlying().(*types.Map); !isMap {
 				return
 			}
-			why, okA := allowed[fn.Name()]
-			ob := c.Ob("d", fn.Name(), "range over map "+an.Render(r.X), r.Pos())
+			why, okA := allowed[an.NameOf(fn)]
+			ob := c.Ob("d", an.NameOf(fn), "range over map "+an.Render(r.X), r.Pos())
 			if !okA {
 				ob.Fail("iteration over a map in the generator outside the tabled places: its order is random per run, so anything derived from it (which definition of a group wins, the order of emitted text) makes generation non-deterministic")
 				return
 			}
-			if fn.Name() == "Execute" {
+			if an.NameOf(fn) == "Execute" {
 				// premise: the loop body only writes one file named after the element
 				okBody := true
 				for _, b := range fn.Blocks {
@@ -429,7 +429,7 @@ func runC12(c *core.Ctx, o Options) {
 					return
 				}
 			}
-			if fn.Name() == "sortedMapKeys" {
+			if an.NameOf(fn) == "sortedMapKeys" {
 				sorted := false
 				an.AllInstrs(fn, func(i2 ssa.Instruction) {
 					if call, isCall := i2.(*ssa.Call); isCall {
@@ -498,7 +498,7 @@ func runC12(c *core.Ctx, o Options) {
 					if cal := an.StaticCallee(cc); cal != nil && cal.Pkg == f.Pkg && reaches(cal) {
 						found = true
 					}
-					if cal := an.StaticCallee(cc); cal != nil && cal.Pkg != nil && cal.Pkg.Pkg.Path() == "os" && (cal.Name() == "WriteFile" || cal.Name() == "Create" || cal.Name() == "OpenFile") {
+					if cal := an.StaticCallee(cc); cal != nil && cal.Pkg != nil && cal.Pkg.Pkg.Path() == "os" && (an.NameOf(cal) == "WriteFile" || an.NameOf(cal) == "Create" || an.NameOf(cal) == "OpenFile") {
 						found = true
 					}
 				}
@@ -575,7 +575,7 @@ func checkLockStep(c *core.Ctx, rule string, fn *ssa.Function, hasArgs bool) {
 			}
 		}
 	}
-	ob := c.Ob(rule, fn.Name(), "accessor index = number of constructor entries before it, on every path through the member loop", fn.Pos())
+	ob := c.Ob(rule, an.NameOf(fn), "accessor index = number of constructor entries before it, on every path through the member loop", fn.Pos())
 	if fieldsPhi == nil {
 		ob.Unknown("no loop-carried goFields")
 		return
@@ -863,12 +863,12 @@ func checkSchemaReadOnly(c *core.Ctx, rule string, gen *ssa.Package) {
 				case *ssa.FieldAddr:
 					if isSchemaType(a.X.Type()) && !an.IsConstructorBase(a.X, fn) {
 						nSites++
-						c.Ob(rule, fn.Name(), "store to schema field "+an.Render(a), x.Pos()).Fail("the generator writes to the parsed document (%s): a second generation from the same document sees a different schema", an.Render(a))
+						c.Ob(rule, an.NameOf(fn), "store to schema field "+an.Render(a), x.Pos()).Fail("the generator writes to the parsed document (%s): a second generation from the same document sees a different schema", an.Render(a))
 					}
 				case *ssa.IndexAddr:
 					if isSchemaType(a.X.Type()) && !fresh(a.X, 0) {
 						nSites++
-						c.Ob(rule, fn.Name(), "store to schema slice element "+an.Render(a), x.Pos()).Fail("the generator overwrites an element of a slice of the parsed document")
+						c.Ob(rule, an.NameOf(fn), "store to schema slice element "+an.Render(a), x.Pos()).Fail("the generator overwrites an element of a slice of the parsed document")
 					}
 				}
 			case *ssa.Call:
@@ -916,7 +916,7 @@ func checkSchemaReadOnly(c *core.Ctx, rule string, gen *ssa.Package) {
 				}
 				if sl := findReslice(x.Call.Args[0], 0, map[ssa.Value]bool{}); sl != nil {
 					nSites++
-					c.Ob(rule, fn.Name(), "append onto a re-slice of a schema slice "+an.Render(sl), x.Pos()).Fail(
+					c.Ob(rule, an.NameOf(fn), "append onto a re-slice of a schema slice "+an.Render(sl), x.Pos()).Fail(
 						"append(%s, …) writes into the backing array of a slice that belongs to the parsed document (in-place filtering): the document's members are shifted and duplicated, so generating again from the same document — another output directory, a determinism check — fails or produces a different package", an.Render(sl))
 				}
 			}
